@@ -31,6 +31,8 @@ class C02(Prop):
             g.start()
             for _ in range(rng.randint(5, length)):
                 g.step()
+                if rng.random() < 0.03:
+                    g.ops.append(["reopen"])  # the client restarts: a new Datastore object on the same database file
             for be in storelib.BACKENDS:
                 out.append(("random-history", {"backend": be, "ops": g.ops}))
         # histories of single-event writes with NOTHING read in between (a read would flush the lazily committing store):
